@@ -227,4 +227,73 @@ decreasing_by
   rename_i h; have := size_mem h; simp only [Node.size]; omega
 
 
+/-! ### Comparison signs and wildcards -/
+
+/-- what a range node `[s TO e]` / `{s TO e}` with numeric end points selects -/
+def inRange (lo hi : Option Int) (loExcl hiExcl : Bool) (x : Int) : Bool :=
+  (match lo with
+   | none => true
+   | some a => if loExcl then decide (a < x) else decide (a ≤ x)) &&
+  (match hi with
+   | none => true
+   | some b => if hiExcl then decide (x < b) else decide (x ≤ b))
+
+/-- the reading of the six comparison spellings of `GtLtPlugin` -/
+def Rel.holds : Rel → Int → Int → Bool
+  | .lt, x, v => decide (x < v)
+  | .gt, x, v => decide (x > v)
+  | .le, x, v | .el, x, v => decide (x ≤ v)
+  | .ge, x, v | .eg, x, v => decide (x ≥ v)
+
+/-- glob matching: `*` (42) any run, `?` (63) one character -/
+def globMatch : List Nat → List Nat → Bool
+  | [], [] => true
+  | [], _ :: _ => false
+  | p :: ps, s =>
+    if p = 42 then
+      globMatch ps s || (match s with
+        | [] => false
+        | _ :: s' => globMatch (p :: ps) s')
+    else match s with
+      | [] => false
+      | c :: s' => (p = 63 || p = c) && globMatch ps s'
+termination_by p s => p.length + s.length
+
+
+/-! ### What a query object selects -/
+
+/-- Which documents a query object selects, `w` saying for one fixed document which leaf queries
+    match it: the classical reading of the query classes (C01's denotation).  An intersection or
+    union without members matches nothing. -/
+def Q.eval (w : Nat → Bool) : Q → Bool
+  | .leaf id _ => w id
+  | .null => false
+  | .compound k subs _ =>
+    match k with
+    | .and | .ordered | .seq => !subs.isEmpty && (subs.map (fun q => q.eval w)).all id
+    | .or | .dismax => (subs.map (fun q => q.eval w)).any id
+    | _ => false
+  | .not q => !q.eval w
+  | .binary k a b =>
+    match k with
+    | .andnot => a.eval w && !b.eval w
+    | .andmaybe => a.eval w
+    | .require => a.eval w && b.eval w
+    | _ => false
+
+/-- a tree in which every group has the operands its class needs (one for NOT, two for the binary
+    classes, at least one otherwise) and every leaf is a word/phrase/wildcard, a range or `*:*` -/
+def Node.full : Node → Bool
+  | .group k ns _ =>
+    (match k with
+     | .not => decide (ns.length = 1)
+     | .andnot | .andmaybe | .require => decide (ns.length = 2)
+     | _ => !ns.isEmpty) && (ns.map Node.full).all id
+  | .text .. | .range .. | .every => true
+  | _ => false
+termination_by n => n.size
+decreasing_by
+  all_goals simp_wf
+  rename_i h; have := size_mem h; simp only [Node.size]; omega
+
 end WM.Parser
